@@ -783,7 +783,7 @@ theorem caddyfile_bad_weights_rejected (dur : Bytes → Option Int) (l fuel : Na
     policy in force is never silently replaced -/
 theorem caddyfile_second_lb_policy_rejected (dur : Bytes → Option Int) (addr : Bytes → Option (List Bytes))
     (d : Disp) (st : RpCfg) (hv : d.val = str "lb_policy") (hp : st.pol.isSome = true) :
-    rpStep dur addr d st = none := by
+    rpStep dur addr d st = .err := by
   have h1 : str "lb_policy" ≠ str "to" := by decide
   unfold rpStep
   simp only [hv, h1, if_false, if_true, hp]
@@ -793,7 +793,7 @@ theorem caddyfile_second_lb_policy_rejected (dur : Bytes → Option Int) (addr :
 theorem caddyfile_lb_retries (dur : Bytes → Option Int) (addr : Bytes → Option (List Bytes))
     (d : Disp) (st : RpCfg) (v : Int) (hv : d.val = str "lb_retries") (ha : d.nextArg.1 = true)
     (hn : C16.atoi d.nextArg.2.val = some v) :
-    rpStep dur addr d st = some (d.nextArg.2, { st with retries := v }) := by
+    rpStep dur addr d st = .ok (d.nextArg.2, { st with retries := v }) := by
   have h1 : str "lb_retries" ≠ str "to" := by decide
   have h2 : str "lb_retries" ≠ str "lb_policy" := by decide
   unfold rpStep
@@ -805,7 +805,7 @@ theorem caddyfile_lb_retries (dur : Bytes → Option Int) (addr : Bytes → Opti
 theorem caddyfile_unhealthy_request_count (dur : Bytes → Option Int) (addr : Bytes → Option (List Bytes))
     (d : Disp) (st : RpCfg) (v : Int) (hv : d.val = str "unhealthy_request_count") (ha : d.nextArg.1 = true)
     (hn : C16.atoi d.nextArg.2.val = some v) :
-    rpStep dur addr d st = some (d.nextArg.2, { st with passive := true, urc := v }) := by
+    rpStep dur addr d st = .ok (d.nextArg.2, { st with passive := true, urc := v }) := by
   have h1 : str "unhealthy_request_count" ≠ str "to" := by decide
   have h2 : str "unhealthy_request_count" ≠ str "lb_policy" := by decide
   have h3 : str "unhealthy_request_count" ≠ str "lb_retries" := by decide
@@ -1018,11 +1018,11 @@ example : parseReverseProxy exDur exAddr
      ⟨str "lb_policy", 3⟩, ⟨str "header", 3⟩, ⟨str "X-Key", 3⟩, ⟨lbrace, 3⟩, ⟨str "fallback", 4⟩, ⟨str "first", 4⟩, ⟨rbrace, 5⟩,
      ⟨str "lb_retries", 6⟩, ⟨str "3", 6⟩, ⟨str "unhealthy_request_count", 7⟩, ⟨str "20", 7⟩, ⟨str "fail_duration", 8⟩, ⟨str "30s", 8⟩,
      ⟨rbrace, 9⟩]
-    = some ⟨[str "a:80", str "b:81", str "b:82"], some [.header (str "X-Key"), .simple 3], 3, 0, 0, true, 0, 30000000000, 20⟩ ∧
+    = .ok ⟨[str "a:80", str "b:81", str "b:82"], some [.header (str "X-Key"), .simple 3], 3, 0, 0, true, 0, 30000000000, 20⟩ ∧
   parseReverseProxy exDur exAddr [⟨str "reverse_proxy", 1⟩, ⟨lbrace, 1⟩, ⟨str "lb_policy", 2⟩, ⟨str "first", 2⟩,
-     ⟨str "lb_policy", 3⟩, ⟨str "random", 3⟩, ⟨rbrace, 4⟩] = none ∧
-  parseReverseProxy exDur exAddr [⟨str "reverse_proxy", 1⟩, ⟨lbrace, 1⟩, ⟨str "lb_retries", 2⟩, ⟨str "3", 2⟩, ⟨str "junk", 2⟩, ⟨rbrace, 3⟩] = none ∧
-  parseReverseProxy exDur exAddr [⟨str "reverse_proxy", 1⟩, ⟨str "nope", 1⟩] = none := by decide
+     ⟨str "lb_policy", 3⟩, ⟨str "random", 3⟩, ⟨rbrace, 4⟩] = .err ∧
+  parseReverseProxy exDur exAddr [⟨str "reverse_proxy", 1⟩, ⟨lbrace, 1⟩, ⟨str "lb_retries", 2⟩, ⟨str "3", 2⟩, ⟨str "junk", 2⟩, ⟨rbrace, 3⟩] = .err ∧
+  parseReverseProxy exDur exAddr [⟨str "reverse_proxy", 1⟩, ⟨str "nope", 1⟩] = .err := by decide
 
 -- lb_retry_match `method POST`: now the POST is retried after an "other" error (and reaches the second upstream
 -- once the first is marked failed), the GET is not
